@@ -106,7 +106,8 @@ def bounded(ctx, b):
                 continue
 
             def one(fmt=fmt, W=W):
-                doc = W().write(mk())
+                # (one writer object per format for the whole run)
+                doc = _WRITER_OBJECTS.setdefault(fmt, W()).write(mk())
                 try:
                     cues = parse(fmt, doc)
                 except parsers.FormatError as e:
@@ -116,6 +117,9 @@ def bounded(ctx, b):
                 exp = [["before"], [f(x) for x in lines if f(x)], ["after"]]
                 return got == exp, {"format": fmt, "lines": lines, "variant": variant, "parsed": got, "expected": exp, "doc": doc[-400:]}
             b.guard((fmt, tuple(lines), variant), one, sample={"format": fmt, "lines": lines, "variant": variant})
+
+
+_WRITER_OBJECTS = {}
 
 
 def bounded_escape(ctx, b):
